@@ -198,6 +198,12 @@ pub fn run(ctx: &Ctx) -> Outcome {
                     }
                 }
             }
+            for (k, d) in refs::sparse_data().into_iter().enumerate() {
+                let m = RefMsg::Data { offset: [0x0000u16, 0x0010, 0xFFF0][k % 3], data: d };
+                let w = check_message(&m, rep);
+                inj.note(w, &m, rep);
+                rep.count("sparse_chunks");
+            }
             for (a, _, d) in refs::coincidence_frames() {
                 let m = RefMsg::Data { offset: a, data: d };
                 let w = check_message(&m, rep);
@@ -243,6 +249,7 @@ pub fn run(ctx: &Ctx) -> Outcome {
     let mut floors = vec![
         floor("all 65536 addresses swept", report.get("addresses_swept") == 65_536, report.get("addresses_swept")),
         floor("chunks whose fields coincide (offset bytes and every data byte one value; checksum equal to another field)", report.get("coincidence_chunks") == 2240, report.get("coincidence_chunks")),
+        floor("chunks that are all 00 / all FF but for one byte, at every position of every length 1..=40 and 248..=255", report.get("sparse_chunks") > 5_000, report.get("sparse_chunks")),
         floor("data-chunk sweep done", report.get("data_sweep_done") == 1, report.get("data_sweep_done")),
         floor("longest chunks of FF / 80 / 7F under offsets of the same value (largest unsigned and signed byte sums)", report.get("extreme_byte_sum_chunks") == 6 * 6 * 4 * 3, report.get("extreme_byte_sum_chunks")),
         floor("every data length 0..=255 observed", report.set_len("data_lengths") == 256, report.set_len("data_lengths")),
